@@ -57,6 +57,10 @@ def main():
     t0 = time.time()
     work = VERIF / ".work" / f"{prop}_{os.getpid()}"
     work.mkdir(parents=True, exist_ok=True)
+    for old in (VERIF / ".work").glob("C*_*"):  # scratch directories of runs that were killed
+        pid = old.name.split("_")[-1]
+        if pid.isdigit() and not Path(f"/proc/{pid}").exists():
+            shutil.rmtree(old, ignore_errors=True)
     os.environ.setdefault("VERIF_WORK", str(work))
     rc = 1
     try:
